@@ -199,6 +199,19 @@ def gen_cases(rng, tier):
                 for _ in range(rng.randint(1, 4)):
                     evs.append((rng.choice("sr"), gen_announcement(rng, last, SETUP + REQUESTS[:3], 0.0)))
                 yield evs, "subset"
+    # the two carriers alternate, each repeating a byte-identical frame: sensor data says k -> v1, regulator data
+    # says k -> v2, the same sensor frame again must refresh again (and so on); all other sensor fields are constant
+    for _ in range(150 if quick else 4000):
+        kinds = rng.sample(REQUESTS, rng.randint(1, 3))
+        wa = [(k, rng.choice([1, 2, 3, 65535])) for k in kinds]
+        wb = [(k, v if rng.random() < 0.3 else v % 65535 + 1) for k, v in wa]
+        if rng.random() < 0.3:
+            wb = wb + [(rng.choice(UNKNOWN), 1)]
+        evs = [("e", rng.sample(SETUP, rng.choice([0, 0, 1])))] if rng.random() < 0.5 else []
+        pat = rng.choice(["srsr", "srssrr", "rsrs", "ssrrss", "srsrsr"])
+        for ch in pat * rng.randint(1, 2):
+            evs.append((ch, list(wa if ch == "s" else wb)))
+        yield evs, "alternate"
     for _ in range(1000 if quick else 40000):
         yield gen_case(rng), "random"
     for _ in range(200 if quick else 5000):
@@ -250,19 +263,185 @@ def check_cases(res, cases):
             res.sample(dict(label=label, case=text, queued=obs))
 
 
+# ---------------------------------------------------------------- overlapping announcements (held executor)
+class OverlapRunner:
+    """`Request.create` imports the handler class through run_in_executor; with the executor HELD the harness decides
+    when each suspended `update_frame_versions` resumes, so several announcements can be in flight at once."""
+
+    def __init__(self):
+        self.loop = vloop.new_loop(hold_executor=True)
+        self.loop.set_exception_handler(lambda loop, ctx: None)
+
+    def close(self):
+        asyncio.set_event_loop(None)
+        self.loop.close()
+
+    def run_case(self, ops):
+        """ops: ("s"|"r", entries) announce; ("e", kinds); ("x", task) resume task.  -> (model events, observations)"""
+        aio_events._set_running_loop(self.loop)
+        try:
+            queue = asyncio.Queue()
+            dev = EcoMAX(queue, NetworkInfo())
+            owners = []           # task index per entry of loop.held
+            n_tasks = 0
+            cum = []
+            seen = {}             # kind -> versions announced so far
+            events, obs = [], []
+            assert not self.loop.held
+            for kind, body in ops:
+                moved = None
+                if kind == "e":
+                    dev.dispatch_nowait("frame_errors", [FrameType(k) if is_known_frame_type(k) else k for k in body])
+                    events.append(["e" + (",".join(map(str, body)) or "-")])
+                elif kind in "sr":
+                    payload = sensor_payload(body) if kind == "s" else regdata_payload(body)
+                    cls = SensorDataMessage if kind == "s" else RegulatorDataMessage
+                    dev.handle_frame(cls(message=bytearray(payload), sender=DeviceType.ECOMAX, recipient=DeviceType.ECONET))
+                    moved = n_tasks
+                    n_tasks += 1
+                    for k, v in body:
+                        seen.setdefault(k, set()).add(v)
+                    events.append(["a" + (",".join(f"{k}:{v}" for k, v in body) or "-"), f"m{moved}"])
+                else:
+                    idx = owners.index(body)
+                    owners.pop(idx)
+                    self.loop.release(idx)
+                    moved = body
+                    events.append([f"m{moved}"])
+                self.loop.settle()
+                while len(owners) < len(self.loop.held):
+                    owners.append(moved)
+                while not queue.empty():
+                    cum.append(int(queue.get_nowait().frame_type))
+                rec = []
+                for k in sorted(seen):
+                    for v in sorted(seen[k]):
+                        if dev.has_frame_version(k, v):
+                            rec.append(f"{k}:{v}")
+                phases = ",".join("w" if a in owners else "f" for a in range(n_tasks)) or "-"
+                obs.append((",".join(map(str, cum)) or "-") + "/" + (",".join(rec) or "-") + "/" + phases)
+            pending = sorted(set(owners))
+            # leave nothing suspended behind
+            while self.loop.held:
+                self.loop.release(0)
+                self.loop.settle()
+            return events, obs, pending
+        finally:
+            aio_events._set_running_loop(None)
+
+
+def run_overlap(res, rng, n_cases):
+    runner = OverlapRunner()
+    cases = []
+    try:
+        fixed = [
+            [("s", [(49, 1)]), ("r", [(49, 1)]), ("x", 0), ("x", 1)],                       # the doubled request
+            [("s", [(54, 1)]), ("r", [(54, 2)]), ("x", 1), ("x", 0)],                       # last writer wins
+            [("r", [(49, 1), (50, 1)]), ("s", [(50, 1), (49, 1)]), ("x", 0), ("x", 1), ("x", 0)],
+            [("s", [(49, 1)]), ("x", 0), ("r", [(49, 1)])],                                 # no overlap: one request
+        ]
+        for ops in fixed:
+            ev, obs, _ = runner.run_case(ops)
+            cases.append((ops, ev, obs, "overlap-fixed"))
+        for _ in range(n_cases):
+            # generate online: after every op ask the implementation which tasks are suspended
+            ops = []
+            n = 0
+            kinds = rng.sample(REQUESTS, rng.randint(1, 3))
+            if rng.random() < 0.3:
+                ops.append(("e", rng.sample(SETUP, rng.choice([0, 1, 2]))))
+            for _ in range(rng.randint(2, 10)):
+                _, _, pending = runner.run_case(ops)
+                if pending and rng.random() < 0.5:
+                    ops.append(("x", rng.choice(pending)))
+                elif n < 5:
+                    body = [(k, rng.choice([1, 1, 2])) for k in rng.sample(kinds, rng.randint(1, len(kinds)))]
+                    if rng.random() < 0.1:
+                        body.insert(rng.randrange(len(body) + 1), (rng.choice(FOREIGN + UNKNOWN[:3]), 1))
+                    ops.append((rng.choice("sr"), body))
+                    n += 1
+            for _ in range(12):
+                _, _, pending = runner.run_case(ops)
+                if not pending:
+                    break
+                ops.append(("x", pending[0] if rng.random() < 0.5 else pending[-1]))
+            ev, obs, _ = runner.run_case(ops)
+            cases.append((ops, ev, obs, "overlap-random"))
+    finally:
+        runner.close()
+    check_overlap(res, cases)
+
+
+def parse_overlap(text):
+    ops = []
+    for w in text.split():
+        if w[0] == "x":
+            ops.append(("x", int(w[1:])))
+        else:
+            ops.extend(parse_case(w))
+    return ops
+
+
+def check_overlap(res, cases):
+    answers = driver_batch(" ".join(["c15o"] + [e for grp in ev for e in grp]) for _, ev, _, _ in cases)
+    doubled = 0
+    for (ops, ev, obs, label), ans in zip(cases, answers):
+        text = " ".join((k + (",".join(f"{a}:{b}" for a, b in body) or "-")) if k in "sr" else
+                        ("e" + (",".join(map(str, body)) or "-")) if k == "e" else f"x{body}" for k, body in ops)
+        res.case("overlap " + text, len(ops) >= 3)
+        res.count("label:" + label)
+        model_all = [] if ans == "." else ans.split(";")
+        # the model prints a state after every event; an op is one or two events
+        model, pos = [], 0
+        for grp in ev:
+            pos += len(grp)
+            st = model_all[pos - 1] if pos - 1 < len(model_all) else "?"
+            q, r, t = st.split("/")
+            t = ",".join("w" if x.startswith("w") else "c" if x == "c" else "f" for x in t.split(",")) if t != "-" else "-"
+            model.append(f"{q}/{r}/{t}")
+        if model != obs:
+            k = next((i for i, (a, b) in enumerate(zip(model, obs)) if a != b), 0)
+            res.fail("corr", dict(case="overlap " + text, label=label), model[k:k + 1], obs[k:k + 1],
+                     f"overlap machine and update_frame_versions differ after op #{k}")
+        final_q = obs[-1].split("/")[0] if obs else "-"
+        ks = [] if final_q == "-" else final_q.split(",")
+        n_ann = sum(1 for k, _ in ops if k in "sr")
+        if any(ks.count(k) > 1 for k in set(ks)) and n_ann >= 2:
+            versions = {}
+            dbl = False
+            for kk, body in ops:
+                if kk in "sr":
+                    for a, b in body:
+                        versions.setdefault(a, []).append(b)
+            for k in set(ks):
+                if ks.count(k) > len(set(versions.get(int(k), []))):
+                    dbl = True
+            if dbl:
+                doubled += 1
+                if "overlap_example" not in res.extra:
+                    res.extra["overlap_example"] = dict(case=text, observed=obs)
+    res.extra["overlap_cases"] = len(cases)
+    res.extra["overlap_cases_with_a_doubled_request"] = doubled
+    res.notes.append("overlap (outside the statement's quantifier, recorded as an observation, not a violation): with the executor held, "
+                     f"{doubled} of {len(cases)} overlap histories queued more requests of a kind than distinct versions were announced "
+                     "(two announcements pass the version check before either records); the overlap machine predicts every one of them")
+
+
 def run(ctx):
     rng = random.Random(ctx["seed"] * 7919 + 15)
     res = Result("C15")
     res.rule = ("histories of 1..11 announcements (0..8 entries each; versions repeated / +1 / -1 / fresh incl. 0 and 65535; a code twice "
                 "in one announcement) carried by sensor-data or regulator-data frames into a fresh EcoMAX; `frame_errors` dispatched first, "
                 "late, twice or never; every subset of the 8 set-up kinds as the unsupported set (exhaustive); every code 0..255 on its own; "
-                "a separate class with known response/message codes. distinct = distinct history text; non-trivial = >= 2 announcements, "
+                "a separate class with known response/message codes; the two carriers alternating with byte-identical repeated frames. distinct = distinct history text; non-trivial = >= 2 announcements, "
                 "at least one that queued a request and one that queued nothing")
     cases = [(parse_case(ln), "corpus") for _, ln in load_corpus("C15")]
     cases.extend(gen_cases(rng, ctx["tier"]))
     if ctx.get("max_cases"):
         cases = cases[: ctx["max_cases"]]
     check_cases(res, cases)
+    if not ctx.get("max_cases"):
+        run_overlap(res, rng, 150 if ctx["tier"] == "quick" else 3000)
     res.extra["unsupported_subsets_enumerated"] = 2 ** len(SETUP)
     res.notes.append("observed per event: kinds of the frames found on the device queue after loop quiescence (all must be Request "
                      "frames addressed to the ecoMAX); the TypeError raised for a known response/message code is seen only through "
@@ -275,5 +454,14 @@ def replay(ctx):
     f = r.get("failure") or r.get("first_difference")
     res = Result("C15")
     res.rule = "replay of one recorded history"
+    if f["input"]["case"].startswith("overlap "):
+        ops = parse_overlap(f["input"]["case"][len("overlap "):])
+        runner = OverlapRunner()
+        try:
+            ev, obs, _ = runner.run_case(ops)
+        finally:
+            runner.close()
+        check_overlap(res, [(ops, ev, obs, "replay")])
+        return res
     check_cases(res, [(parse_case(f["input"]["case"]), f["input"].get("label", "replay"))])
     return res
